@@ -39,6 +39,7 @@ type FuncSpec struct {
 	Preserves []*Clause // locations the function never modifies (negative frame; used when no assigns is declared)
 	Guards    []*GuardClause // control-flow contracts decided on the CFG (frames back end)
 	Orders    []*OrderClause // "order A before B": no A is reachable once a B has been executed
+	Reads     []*ReadsClause // "reads_fields T except a,b": the function reads every other field of struct T
 	Trusted   bool
 	MayPanic  bool
 	NoInline  bool
@@ -123,6 +124,16 @@ type OrderClause struct {
 	Line int
 }
 
+// ReadsClause: "reads_fields <Type> except f1, f2": the function reads every
+// field of struct type <Type> (of its own package) that is not listed - one
+// obligation per field, generated from the struct type on every run.
+type ReadsClause struct {
+	Type   string
+	Except []string
+	File   string
+	Line   int
+}
+
 type SpecFile struct {
 	Alt    map[string][]*FuncSpec // further contracts for the same function name (each restricted by flag only_for)
 	Lemmas map[string]*Lemma
@@ -137,7 +148,7 @@ func NewSpecFile() *SpecFile {
 }
 
 var clauseKeywords = map[string]bool{"requires": true, "ensures": true, "invariant": true, "decreases": true,
-	"assigns": true, "preserves": true, "guard": true, "order": true, "loop": true, "may_panic": true, "trusted": true, "pure": true, "abstract": true, "axiom": true,
+	"assigns": true, "preserves": true, "guard": true, "order": true, "reads_fields": true, "loop": true, "may_panic": true, "trusted": true, "pure": true, "abstract": true, "axiom": true,
 	"func": true, "lemma": true, "noinline": true, "opaque": true, "flag": true, "let": true, "may_panic_at": true, "extends": true, "foreach_field": true, "ghost": true, "assert": true}
 
 // ParseSpecFile reads //@ lines from path and adds them to sf.
@@ -349,6 +360,17 @@ func (sf *SpecFile) ParseSpecFile(path string) error {
 					cur.Assigns = append(cur.Assigns, cs...)
 					cur.HasAssign = true
 				}
+			case "reads_fields":
+				fs := strings.Fields(strings.ReplaceAll(r.text, ",", " "))
+				if len(fs) == 0 {
+					return fmt.Errorf("%s: expected 'reads_fields <Type> [except f1, f2 ...]'", loc)
+				}
+				rc := &ReadsClause{Type: fs[0], File: path, Line: r.line}
+				if len(fs) > 2 && fs[1] == "except" {
+					rc.Except = fs[2:]
+				}
+				curLoop = nil
+				cur.Reads = append(cur.Reads, rc)
 			case "order":
 				a, b, ok := strings.Cut(strings.TrimSpace(r.text), " before ")
 				if !ok {
